@@ -302,7 +302,7 @@ func (c *Ctx) RuleStoreThenError(fns []*ssa.Function) {
 
 // RuleLimitZero: every ordering comparison against a load of an exported Max* int global must be
 // conjoined with a != 0 / > 0 test of the same global on the path (dominating If true-edge).
-func (c *Ctx) RuleLimitZero(fns []*ssa.Function) {
+func (c *Ctx) RuleLimitZero(fns []*ssa.Function, varName string) {
 	for _, fn := range fns {
 		for _, b := range fn.Blocks {
 			for _, in := range b.Instrs {
@@ -322,7 +322,7 @@ func (c *Ctx) RuleLimitZero(fns []*ssa.Function) {
 				} else if gg := globalLoad(bo.Y); gg != nil {
 					g, other = gg, bo.X
 				}
-				if g == nil || !strings.HasPrefix(g.Name(), "Max") || !g.Object().Exported() {
+				if g == nil || !strings.HasPrefix(g.Name(), "Max") || !g.Object().Exported() || (varName != "" && g.Name() != varName) {
 					continue
 				}
 				if _, isConst := other.(*ssa.Const); isConst {
@@ -549,4 +549,31 @@ func (c *Ctx) RuleSeparatorAware(fns map[*ssa.Function]bool, sep byte) {
 		}
 		c.add("violated", "C06.sep", first, token.NoPos, fmt.Sprintf("no constant containing %q in %v: identifiers are never separated", string(sep), names))
 	}
+}
+
+// RuleNoOtherGlobals: fn and its in-repo callees touch no package-level variable other than the allowed ones.
+func (c *Ctx) RuleNoOtherGlobals(fn *ssa.Function, allowed map[string]bool) {
+	if fn == nil {
+		return
+	}
+	bad := false
+	for _, f := range SortedFuncs(c.Reachable(fn)) {
+		for _, b := range f.Blocks {
+			for _, in := range b.Instrs {
+				for _, op := range in.Operands(nil) {
+					if g, ok := (*op).(*ssa.Global); ok && !allowed[g.Name()] && inRepoPkg(g.Pkg) {
+						c.addc("violated", "C19.lock", f, in.Pos(), "global "+g.Name(), "RandomID's call tree touches package-level state "+g.Name()+" outside the mutex-protected generator", "")
+						bad = true
+					}
+				}
+			}
+		}
+	}
+	if !bad {
+		c.addc("discharged", "C19.lock", fn, fn.Pos(), "other globals", "RandomID's call tree touches no package-level state besides the generator and its mutex", "")
+	}
+}
+
+func inRepoPkg(p *ssa.Package) bool {
+	return p != nil && strings.HasPrefix(p.Pkg.Path(), "go.lstv.dev/util")
 }
